@@ -169,61 +169,121 @@ def find_assign(fn, target):
     raise ExtractError(f'{fn.name}: no assignment to {target}')
 
 
+def calls_in(node, pred):
+    return [n for n in ast.walk(node) if isinstance(n, ast.Call) and pred(n)]
+
+
+def kw(call, name):
+    for k in call.keywords:
+        if k.arg == name: return k.value
+    return None
+
+
+def tr_seed_expr(n, env):
+    """ Python int expression over names (None / 0 are falsy) -> Lean Nat term.  `a or b` = pyOr a b. """
+    if isinstance(n, ast.Constant) and isinstance(n.value, int) and not isinstance(n.value, bool):
+        return str(n.value)
+    if isinstance(n, ast.Constant) and n.value is None:
+        return '0'
+    if isinstance(n, (ast.Name, ast.Attribute)):
+        k = unparse(n)
+        if k in env: return env[k]
+        raise ExtractError(f'process_seed: unknown name {k}')
+    if isinstance(n, ast.BoolOp) and isinstance(n.op, ast.Or):
+        out = tr_seed_expr(n.values[-1], env)
+        for v in reversed(n.values[:-1]):
+            out = f'(pyOr {tr_seed_expr(v, env)} {out})'
+        return out
+    if isinstance(n, ast.BinOp) and isinstance(n.op, ast.Add):
+        return f'({tr_seed_expr(n.left, env)} + {tr_seed_expr(n.right, env)})'
+    raise ExtractError(f'process_seed: unsupported expression {unparse(n)}')
+
+
+def B(x):
+    return 'true' if x else 'false'
+
+
 @generator('SeedFacts', ['starsim/distributions.py', 'starsim/modules.py', 'starsim/sim.py', 'starsim/utils.py'])
 def gen_seed_facts(src):
+    """ Semantic facts (not source text) about how a distribution gets its name, seed, generator and per-step jump """
     rel = 'starsim/distributions.py'
     ps = src.func(rel, 'process_seed', 'Dist')
-    unique = unparse(find_assign(ps, 'unique_name'))
-    offset = [unparse(st.value) for st in ast.walk(ps) if isinstance(st, ast.Assign) and unparse(st.targets[0]) == 'self.offset']
-    seed = unparse(find_assign(ps, 'self.seed'))
+    # seed formula, translated
+    seed_node = find_assign(ps, 'self.seed')
+    seed_lean = tr_seed_expr(seed_node, {'self.offset': 'offset', 'seed': 'seedArg', 'self.seed': 'prev'})
+    # the name that is hashed: `trace or self.trace or self.name` (any or-chain starting with the trace argument)
+    un = find_assign(ps, 'unique_name')
+    prefers_trace = isinstance(un, ast.BoolOp) and isinstance(un.op, ast.Or) and unparse(un.values[0]) == 'trace'
+    offs = [st.value for st in ast.walk(ps) if isinstance(st, ast.Assign) and unparse(st.targets[0]) == 'self.offset']
+    offset_hashes_name = any(isinstance(v, ast.Call) and unparse(v.func) in ('str2int', 'ss.distributions.str2int') and v.args and unparse(v.args[0]) == 'unique_name' for v in offs)
+    # str2int: a process-independent digest reduced modulo `modulo`
     s2i = src.func(rel, 'str2int')
-    s2i_int = unparse(find_assign(s2i, 'integer')); s2i_seed = unparse(find_assign(s2i, 'seed'))
-    # Dists.init: the search and the per-dist init call
-    di = src.func(rel, 'init', 'Dists')
-    search = unparse(find_assign(di, 'self.dists'))
-    init_calls = [unparse(n) for n in ast.walk(di) if isinstance(n, ast.Call) and unparse(n.func) == 'dist.init']
-    loop_iter = [unparse(n.iter) + ' -> ' + unparse(n.target) for n in ast.walk(di) if isinstance(n, ast.For)]
-    # Module.start_step
-    ss_ = src.func('starsim/modules.py', 'start_step', 'Module')
-    jumps = [unparse(n) for n in ast.walk(ss_) if isinstance(n, ast.Call) and isinstance(n.func, ast.Attribute) and n.func.attr in ('jump_dt', 'jump')]
-    # copy_to_module ownership test
-    ctm = src.func(rel, 'copy_to_module', 'Dists')
-    matches = unparse(find_assign(ctm, 'matches'))
-    # Dist.rng creation
+    uses_builtin_hash = bool(calls_in(s2i, lambda c: unparse(c.func) == 'hash'))
+    uses_digest = bool(calls_in(s2i, lambda c: unparse(c.func) in ('sc.sha', 'hashlib.sha224', 'hashlib.sha256', 'hashlib.md5', 'hashlib.sha1')))
+    ret = [n.value for n in ast.walk(s2i) if isinstance(n, ast.Return)]
+    reduces_mod = any(isinstance(n, ast.BinOp) and isinstance(n.op, ast.Mod) and unparse(n.right) == 'modulo' for n in ast.walk(s2i))
+    # Dist.init: generator from the seed
     init = src.func(rel, 'init', 'Dist')
-    rngs = [unparse(st.value) for st in ast.walk(init) if isinstance(st, ast.Assign) and unparse(st.targets[0]) == 'self.rng']
-    # Sim.init: reseeding
+    rng_from_seed = bool(calls_in(init, lambda c: unparse(c.func).endswith('default_rng') and any(unparse(a) == 'self.seed' for a in list(c.args) + [k.value for k in c.keywords])))
+    # Dists.init: names come from the search, every dist gets (trace, base seed)
+    di = src.func(rel, 'init', 'Dists')
+    search = find_assign(di, 'self.dists')
+    search_by_path = isinstance(search, ast.Call) and unparse(search.func) == 'sc.search' and kw(search, 'type') is not None and unparse(kw(search, 'type')) == 'Dist'
+    loops = [n for n in ast.walk(di) if isinstance(n, ast.For) and unparse(n.iter) == 'self.dists.items()']
+    passes = False
+    for lp in loops:
+        if isinstance(lp.target, ast.Tuple) and len(lp.target.elts) == 2:
+            tvar = unparse(lp.target.elts[0]); dvar = unparse(lp.target.elts[1])
+            for c in calls_in(lp, lambda c: unparse(c.func) == f'{dvar}.init'):
+                t, sd = kw(c, 'trace'), kw(c, 'seed')
+                if t is not None and unparse(t) == tvar and sd is not None and unparse(sd) in ('base_seed', 'self.base_seed'):
+                    passes = True
+    # Module.start_step: own dists, not forced
+    ss_ = src.func('starsim/modules.py', 'start_step', 'Module')
+    jumps = calls_in(ss_, lambda c: isinstance(c.func, ast.Attribute) and c.func.attr in ('jump_dt', 'jump'))
+    own = bool(jumps) and all(unparse(c.func.value) == 'self.dists' for c in jumps)
+    def truthy(v): return v is not None and not (isinstance(v, ast.Constant) and v.value in (False, None, 0))
+    forced = any(truthy(kw(c, 'force')) or len(c.args) >= 2 for c in jumps)
+    # ownership of a dist = identity of its module
+    ctm = src.func(rel, 'copy_to_module', 'Dists')
+    by_identity = any(isinstance(n, ast.Compare) and ({unparse(n.left), unparse(n.comparators[0])} in ({'id(dist.module)', 'id(module)'}, {'dist.module', 'module'}))
+                      and isinstance(n.ops[0], (ast.Eq, ast.Is)) for n in ast.walk(ctm))
+    # Sim.init reseeds the legacy generators and initialises the dists with the sim's rand_seed
     sim_init = src.func('starsim/sim.py', 'init', 'Sim')
-    setseed = [unparse(n) for n in ast.walk(sim_init) if isinstance(n, ast.Call) and unparse(n.func) == 'ss.set_seed']
+    reseeds = bool(calls_in(sim_init, lambda c: unparse(c.func) in ('ss.set_seed', 'set_seed') and c.args and unparse(c.args[0]) == 'self.pars.rand_seed'))
     sim_dists = src.func('starsim/sim.py', 'init_dists', 'Sim')
-    dist_init = [unparse(n) for n in ast.walk(sim_dists) if isinstance(n, ast.Call) and isinstance(n.func, ast.Attribute) and n.func.attr == 'init']
-    facts = dict(unique_name=unique, offset=offset, seed=seed, str2int_integer=s2i_int, str2int_seed=s2i_seed, search=search,
-                 dist_init_calls=init_calls, dist_loop=loop_iter, start_step_jumps=jumps, ownership=matches, rng=rngs,
-                 sim_set_seed=setseed, sim_dists_init=dist_init)
-    def L(xs): return '[' + ', '.join(lean_str(x) for x in xs) + ']'
+    dists_with_seed = bool(calls_in(sim_dists, lambda c: isinstance(c.func, ast.Attribute) and c.func.attr == 'init' and kw(c, 'base_seed') is not None
+                                    and unparse(kw(c, 'base_seed')) == 'self.pars.rand_seed'))
+    facts = dict(seed_expr=unparse(seed_node), unique_name=unparse(un), prefers_trace=prefers_trace, offset_hashes_name=offset_hashes_name,
+                 uses_builtin_hash=uses_builtin_hash, uses_digest=uses_digest, reduces_mod=reduces_mod, rng_from_seed=rng_from_seed,
+                 search_by_path=search_by_path, init_passes_trace_and_seed=passes, start_step_own=own, start_step_forced=forced,
+                 ownership_by_identity=by_identity, sim_reseeds=reseeds, sim_dists_with_seed=dists_with_seed,
+                 start_step_calls=[unparse(c) for c in jumps])
     body = f'''namespace StarsimModel.Gen.Seed
-/-- `Dist.process_seed`: `unique_name = …` -/
-def uniqueName : String := {lean_str(unique)}
-/-- `Dist.process_seed`: the right-hand sides assigned to `self.offset` -/
-def offsetExprs : List String := {L(offset)}
-/-- `Dist.process_seed`: `self.seed = …` -/
-def seedExpr : String := {lean_str(seed)}
-/-- `str2int`: how the string is turned into an integer -/
-def str2intInteger : String := {lean_str(s2i_int)}
-def str2intSeed : String := {lean_str(s2i_seed)}
-/-- `Dists.init`: how the distributions are found and named -/
-def searchExpr : String := {lean_str(search)}
-def distLoop : List String := {L(loop_iter)}
-def distInitCalls : List String := {L(init_calls)}
-/-- `Dist.init`: how the generator is created -/
-def rngExprs : List String := {L(rngs)}
-/-- `Module.start_step`: which distributions are advanced -/
-def startStepJumps : List String := {L(jumps)}
-/-- `Dists.copy_to_module`: ownership test -/
-def ownershipExpr : String := {lean_str(matches)}
-/-- `Sim.init`: reseeding of the legacy global generators, and initialisation of the distributions -/
-def simSetSeed : List String := {L(setseed)}
-def simDistsInit : List String := {L(dist_init)}
+/-- Python's `a or b` on integers where 0 / None are falsy -/
+def pyOr (a b : Nat) : Nat := if a ≠ 0 then a else b
+/-- `Dist.process_seed`: `self.seed = {unparse(seed_node)}` as a function of (hash of the name, seed argument, previous seed) -/
+def seedFormula (offset seedArg prev : Nat) : Nat := {seed_lean}
+/-- the hashed name is the trace when one is given (`{unparse(un)}`) and `self.offset = str2int(that name)` -/
+def namePrefersTrace : Bool := {B(prefers_trace)}
+def offsetHashesName : Bool := {B(offset_hashes_name)}
+/-- `str2int`: no use of the interpreter's randomised `hash()`, a stable digest instead, reduced modulo `modulo` -/
+def usesBuiltinHash : Bool := {B(uses_builtin_hash)}
+def usesStableDigest : Bool := {B(uses_digest)}
+def reducesModulo : Bool := {B(reduces_mod)}
+/-- `Dist.init`: the generator is `default_rng(self.seed)` -/
+def rngFromSeed : Bool := {B(rng_from_seed)}
+/-- `Dists.init`: distributions are found by `sc.search(..., type=Dist)`; each gets `init(trace=<its path>, seed=<base seed>)` -/
+def searchByPath : Bool := {B(search_by_path)}
+def initPassesTraceAndSeed : Bool := {B(passes)}
+/-- `Module.start_step` jumps the module's OWN dists, unforced -/
+def startStepOwn : Bool := {B(own)}
+def startStepForced : Bool := {B(forced)}
+/-- `Dists.copy_to_module`: a dist belongs to the module it refers to (identity) -/
+def ownershipByIdentity : Bool := {B(by_identity)}
+/-- `Sim.init` reseeds the legacy generators with `pars.rand_seed` and initialises the dists with it -/
+def simReseeds : Bool := {B(reseeds)}
+def simDistsWithSeed : Bool := {B(dists_with_seed)}
 end StarsimModel.Gen.Seed
 '''
     return body, facts
